@@ -330,6 +330,11 @@ func (gb *gcpBalancer) getConnectionPoolSize() int {
 func (gb *gcpBalancer) newSubConn() {
 	gb.mu.Lock()
 	defer gb.mu.Unlock()
+	// The caller tested the pool size before taking the lock: test it again, the pool
+	// may have grown in between.
+	if maxSize := gb.cfg.GetChannelPool().GetMaxSize(); maxSize != 0 && len(gb.scRefs) >= int(maxSize) {
+		return
+	}
 	gb.newSubConnLocked()
 }
 
